@@ -151,6 +151,32 @@ fn cases(tier: Tier) -> &'static Vec<Case> {
                 }
             }
         }
+        // headers that look relevant but are not (Proxy-Connection, Keep-Alive, Upgrade without
+        // Connection: upgrade, ...): the decision is that of the same request without them
+        for (ver, cv) in [("1.1", None), ("1.1", Some("close")), ("1.1", Some("keep-alive")), ("1.0", None), ("1.0", Some("keep-alive")), ("1.0", Some("close"))] {
+            for k in 1..NOISE_HEADERS.len() {
+                for noise_first in [false, true] {
+                    for before in 0..2 {
+                        for (_, tail) in &tails {
+                            let mut b = Vec::new();
+                            if before == 1 {
+                                b.extend_from_slice(&get("/k0"));
+                            }
+                            let conn = cv.map(|c| format!("Connection: {}\r\n", c)).unwrap_or_default();
+                            let lines = if noise_first { format!("{}{}", noise_lines(k), conn) } else { format!("{}{}", conn, noise_lines(k)) };
+                            b.extend_from_slice(format!("GET /n HTTP/{}\r\nHost: t\r\n{}\r\n", ver, lines).as_bytes());
+                            b.extend_from_slice(tail);
+                            v.push(Case {
+                                class: format!("noise-headers:http{}-{}", ver, cv.unwrap_or("absent")),
+                                bytes: b,
+                                half_close: false,
+                                deferred: false,
+                            });
+                        }
+                    }
+                }
+            }
+        }
         // the connection-ending request has a body of which the client has sent only a part (or
         // nothing) and the application answers without reading it: the answer is the last
         // response, so the server closes its sending side at once - the client, which is
@@ -262,7 +288,7 @@ impl Check for C12 {
     }
     fn rule(&self, tier: Tier) -> String {
         let own = format!(
-            "version {{1.0, 1.1}} x Connection header {:?} at every position of a pipeline of 1..{} requests x following bytes {{nothing, a further complete request, garbage}} x client half-closing afterwards or not x application answering immediately or on a later signal; {} conversations; token-based reference model: requests after the connection-ending one are never delivered, the client sees exactly the answers of the received requests then end-of-stream; otherwise the connection stays open; after a client half-close everything received is answered, then end-of-stream || history family: EVERY pipeline of 2..{} requests over 10 (version, Connection) atoms {{2.0 absent/close (refused with 505, the connection goes on), 1.1 absent/keep-alive/close, 1.0 absent/keep-alive/'Keep-Alive, foo'/te/close}} x the same following bytes x half-close or not (the decision for a request is exercised after every kind of predecessor) || connection-ending requests {{1.1 close, 1.0}} whose body (Content-Length 70000 / 200000, chunked, Expect) the client has sent only in part or not at all, answered without reading: end-of-stream must follow the answer while the client is still waiting || each atom after a history of 64 / 100 / 1024 (thorough: 19 lengths from 63 to 4097) answered exchanges x the same following bytes",
+            "version {{1.0, 1.1}} x Connection header {:?} at every position of a pipeline of 1..{} requests x following bytes {{nothing, a further complete request, garbage}} x client half-closing afterwards or not x application answering immediately or on a later signal; {} conversations; token-based reference model: requests after the connection-ending one are never delivered, the client sees exactly the answers of the received requests then end-of-stream; otherwise the connection stays open; after a client half-close everything received is answered, then end-of-stream || history family: EVERY pipeline of 2..{} requests over 10 (version, Connection) atoms {{2.0 absent/close (refused with 505, the connection goes on), 1.1 absent/keep-alive/close, 1.0 absent/keep-alive/'Keep-Alive, foo'/te/close}} x the same following bytes x half-close or not (the decision for a request is exercised after every kind of predecessor) || version {{1.0, 1.1}} x Connection {{absent, close, keep-alive}} x 7 sets of headers that look relevant but are not (Proxy-Connection, Keep-Alive, Upgrade without Connection: upgrade, X-Connection, Content-Encoding: chunked, Trailer, Range, Via ...) before or after the Connection header: the decision must be that of the request without them || connection-ending requests {{1.1 close, 1.0}} whose body (Content-Length 70000 / 200000, chunked, Expect) the client has sent only in part or not at all, answered without reading: end-of-stream must follow the answer while the client is still waiting || each atom after a history of 64 / 100 / 1024 (thorough: 19 lengths from 63 to 4097) answered exchanges x the same following bytes",
             CONN_VALUES, if deep(tier) { 4 } else { 3 }, cases(tier).len(), if deep(tier) { 4 } else { 3 }
         );
         format!("{} || {} {:?}", own, crate::props::product::RULE, PRODUCT_CLAUSES)
